@@ -374,8 +374,21 @@ def prove(hyps, goal, rlimit=RLIMIT, use_cvc5=True, cvc5_timeout=30, use_abstrac
             for t in tm.postorder(list(hyps) + [goal]):
                 if t.op == "v":
                     full[t.args[0]] = env.get(t.args[0]) if env and env.get(t.args[0]) is not None else 0.0
-            hv = [tm.eval_float([h], full)[0] for h in hyps]
-            gv = tm.eval_float([goal], full)[0]
+            from fractions import Fraction as _F
+
+            fx = {k: _F(repr(v)) if isinstance(v, float) else _F(v) for k, v in full.items()}
+
+            def _ev(t):
+                """True / False / None (undefined at this point: e.g. a comparison against x/0 -- IEEE semantics differ, native replay decides)"""
+                try:
+                    return tm.eval_exact([t], fx)[0]
+                except Exception:
+                    pass
+                v = tm.eval_float([t], full)[0]
+                return v
+
+            hv = [x for x in (_ev(h) for h in hyps) if x is not None]
+            gv = _ev(goal)
             if all(x is True or x == True for x in hv) and (gv is False or gv == False):  # noqa: E712
                 return Verdict("refuted", "z3", full, dt, used)
             return Verdict("undecided", "z3", None, dt, used, "z3 model is not a counterexample under float evaluation (uninterpreted functions / rounding)")
